@@ -1,5 +1,5 @@
 SPECIFICATION Spec
 CONSTANTS
   Dev = {}
-INVARIANTS Clauses PerId
+INVARIANTS PerId Clauses
 CHECK_DEADLOCK FALSE
